@@ -130,6 +130,10 @@ def directed(rng):
         # the base context (ServerOptions.NewContext) ends: running calls see it, waiting ones never run, later ones are refused
         add('baseend-%d' % v, {'conc': 1 + v % 2, 'basectx': True}, [S(call(1)), D, S(call(2), call(3)), D, dict(a='baseend'), D, hret('m1.1', 'ctxerr'), D,
                                                                     S(call(1)), D])
+        # ... a notification that was waiting for a slot then never runs, and must not be waited for by anything behind it
+        add('baseend-note-%d' % v, {'conc': 1, 'basectx': True}, [S(call(1)), D, S(note()), D, dict(a='baseend'), D, hret('m1.1', 'ctxerr'), D,
+                                                                 S(note()), D, S(call(2)), D] + ([dict(a='stop'), D] if v == 0 else [dict(a='peerclose'), D] if v == 1 else [dict(a='stop'), D, dict(a='restart'), S(call(1)), D])
+                                                                 )
         # the barrier and the limit at every concurrency setting: both messages are in before anything is released,
         # so the drain chooses which goroutine reaches the semaphore first
         for conc in (1, 2, 3):
@@ -186,6 +190,10 @@ def directed(rng):
         add('eofdata-%d' % v, {}, [dict(a='recveofdata', mem=[note() if v % 2 else call(1)]), D])
         # push: late / duplicate / unknown replies, callback from a notification handler behind the barrier
         P = {'push': True}
+        # ... also when the late reply is only recognisably one (no version, another version, an unknown member)
+        add('late-sloppy-%d' % v, P, [dict(a='callback', c='cbA'), D, dict(a='ctxend', c='cbA'), D, S(reply(1, v + 3)), D, S(call(1)), D, hret('m2.1'), D,
+                                      S(reply(1, v + 2), reply(9, v + 3)), D])
+        add('intime-sloppy-%d' % v, P, [dict(a='callback', c='cbA'), D, S(reply(1, v + 3)), D, S(reply(1, v + 3)), D])
         add('f9-late-%d' % v, P, [S(call(1)), D, dict(a='callback', c='cbA', **{'from': 'm1.1'}), D, dict(a='ctxend', c='cbA'), D,
                                   S(reply(1, v)), D, hret('m1.1'), D])
         add('cb-dup-%d' % v, P, [dict(a='callback', c='cbA'), D, S(reply(1, v), reply(1, v + 1)), D, S(reply(1)), S(reply(7)), D])
